@@ -318,8 +318,18 @@ fn run_case(c: &mut Ctx, stream: &str, g: &GenDoc, start: u32, mode: Mode) {
             let cls = panic_class(&msg);
             c.corr(req.clone(), format!("panic {}", cls));
             c.count(&format!("panic.{}", cls));
-            let sig = if site.starts_with("src/processor.rs") && cls == "sub" && doc.objects.is_empty() && start == 0 { "panic:sub:empty-start0".to_string() }
-                      else if site.starts_with("src/processor.rs") && cls == "add" && (start as u64 + doc.objects.len() as u64) > u32::MAX as u64 { "panic:add:u32-overflow".to_string() }
+            let total = start as u64 + doc.objects.len() as u64;
+            let in_processor = site.starts_with("src/processor.rs");
+            if in_processor && cls == "sub" && doc.objects.is_empty() && start == 0 {
+                // no object, no "last number": outside what the property talks about
+                c.count("observation.panic_start0_on_empty_document"); return;
+            }
+            if in_processor && cls == "add" && total > u32::MAX as u64 + 1 {
+                // the ids start..start+n-1 do not fit into u32: no correct result exists
+                c.count("observation.panic_ids_do_not_fit_u32"); return;
+            }
+            // total == 2^32: every id fits (the last one is u32::MAX) and the call still panics
+            let sig = if in_processor && cls == "add" && total == u32::MAX as u64 + 1 { "panic:add:last-id-is-u32-max".to_string() }
                       else { format!("panic@{}", site) };
             c.oracle_fail(&sig, &msg, case);
             return;
@@ -546,11 +556,14 @@ start in {0, 1, inside the id range, above it, large}. Non-trivial = the call re
         run_case(c, "malformed", &g, start, Mode::SanityOnly);
     }
     // ---- u32 boundary
-    for (i, (n_extra, start)) in [(0u32, u32::MAX), (1, u32::MAX - 1), (0, u32::MAX - 40), (3, u32::MAX - 2)].iter().enumerate() {
+    // back = how far the last id start+n-1 stays below u32::MAX (negative: beyond)
+    for (i, back) in [-3i64, -1, 0, 0, 1, 2, 40].iter().enumerate() {
         let Some(mut r) = c.case("u32_boundary", i as u64) else { continue };
-        let o = Opts { pages_in_id_order: false, bookmarks: false, dangling: Dangling::None, malformed: false, max_other: *n_extra as usize };
+        let o = Opts { pages_in_id_order: false, bookmarks: false, dangling: Dangling::None, malformed: false, max_other: 3 };
         let g = gen_doc(&mut r, &o);
-        run_case(c, "u32_boundary", &g, *start, Mode::Full);
+        let n = g.doc.objects.len() as i64;
+        let start = (u32::MAX as i64 - back - (n - 1)).clamp(0, u32::MAX as i64) as u32;
+        run_case(c, "u32_boundary", &g, start, Mode::Full);
     }
 }
 
@@ -631,20 +644,21 @@ fn witnesses(c: &mut Ctx) {
             Err((s, m)) => c.oracle_fail(&format!("panic@{}", s), &m, json!({"witness": "F-C10-b"})),
         }
     }
-    // F-C10-c: start = 0 on an empty document; start + n beyond u32
+    // F-C10-c: every assigned id fits (last id = u32::MAX) and the call still panics at `new_id += 1`.
+    // Observations outside the property's domain: start 0 on an empty document, ids that do not fit.
     if let Some(_r) = c.case("witness_domain", 0) {
         let d = Document::with_version("1.5");
         let req = format!("renumber 0 {}", show_doc(&d));
         let res = guard(|| { let mut x = d.clone(); x.renumber_objects_with(0); x });
         let rep = match &res { Ok(x) => format!("ok {}", show_doc(x)), Err((_, m)) => format!("panic {}", panic_class(m)) };
         c.corr(req, rep);
+        if res.is_err() { c.count("observation.panic_start0_on_empty_document"); }
         let d2 = witness_doc_1to5();
-        let req2 = format!("renumber {} {}", u32::MAX - 2, show_doc(&d2));
-        let res2 = guard(|| { let mut x = d2.clone(); x.renumber_objects_with(u32::MAX - 2); x });
+        let req2 = format!("renumber {} {}", u32::MAX - 4, show_doc(&d2));
+        let res2 = guard(|| { let mut x = d2.clone(); x.renumber_objects_with(u32::MAX - 4); x });
         let rep2 = match &res2 { Ok(x) => format!("ok {}", show_doc(x)), Err((_, m)) => format!("panic {}", panic_class(m)) };
         c.corr(req2, rep2);
-        let p1 = matches!(&res, Err((s, m)) if s.starts_with("src/processor.rs") && panic_class(m) == "sub");
         let p2 = matches!(&res2, Err((s, m)) if s.starts_with("src/processor.rs") && panic_class(m) == "add");
-        c.witness("F-C10-c", p1 && p2, "renumber_objects_with(0) on an empty document: `new_id - 1` underflows; start + n > u32::MAX: `new_id += 1` overflows (overflow checks on)");
+        c.witness("F-C10-c", p2, "5 objects, renumber_objects_with(u32::MAX - 4): the ids u32::MAX-4 ..= u32::MAX all fit, but `new_id += 1` after the last one overflows (overflow checks on)");
     }
 }
